@@ -633,8 +633,16 @@ class C09(_Base):
         gens = []
         for n in range(500 if tier == "quick" else 10000):
             t = rand_tree(rnd, rnd.choice([6, 15, 40]))
-            if t["name"] in ("html", "body"):
-                t["name"] = "div"
+
+            def plain_names(n):
+                # HTMLDocument chooses the document shape from the UN-expanded content (a lone <html>/<body>), so content
+                # whose expansion is - or becomes - a lone <html>/<body> is read differently before and after expansion
+                # (ambiguity A2 of DESIGN.md): such element names are not generated here
+                if n.get("name") in ("html", "body", "head"):
+                    n["name"] = "div"
+                for k in n.get("kids", []):
+                    plain_names(k)
+            plain_names(t)
             if rnd.random() < 0.3:
                 t = {"f": "L", "kids": t["kids"]}
             gens.append({"kind": "expand", "tree": t})
